@@ -99,6 +99,13 @@ def check_case(ctx, cs):
         ok, got = _try(ctx, cname + ".derivatives", tg + (["order>degree"] if order > min(sh["deg"]) else []), small, lambda: obj.derivatives(*prm, order=order))
         if ok:
             check_table(ctx, cname + ".derivatives", tg, small, got, o, sh, pd, order)
+        if sh["rat"]:
+            for label, kw_ in (("weights_corrected_by_edit_back", {"edit_back": True}), ("built_by_setters", {"by_setters": True})):
+                ok, objp = _try(ctx, cname + ".build", tg + [label], small, lambda: build(sh, **kw_))
+                if ok:
+                    ok, got = _try(ctx, cname + ".derivatives", tg + [label], small, lambda: objp.derivatives(*prm, order=order))
+                    if ok:
+                        check_table(ctx, cname + ".derivatives", tg + [label], small, got, o, sh, pd, order)
         ok, obja = _try(ctx, cname + ".build", tg, small, lambda: build(sh, alt_repr=True))
         if ok:
             prm2 = [int(x) if float(x).is_integer() else x for x in prm]
